@@ -125,6 +125,10 @@ def check(ctx):
     check_patch_restricted(ctx)
     check_deepest_first(ctx)
     check_ancestors_nearest_first(ctx)
+    # the ancestors consulted are found through the tree's child -> parent
+    # table: it is keyed per level, never by label alone (rule of C10)
+    from .C10 import check_node_identity
+    check_node_identity(ctx, ('taxonomy.',), floor=3)
     check_lists_consulted_follow_tree(ctx)
     # under flatten the genes used (and reported) are the union of every
     # parent's list (shared with C17)
@@ -213,6 +217,7 @@ def check_roles(ctx):
     n = 0
     for q in READERS:
         n += R.check_reader_roles(ctx, db.fn(q))
+        n += R.check_positions_not_fancy_indexed_raw(ctx, db.fn(q))
     if n < 4:
         raise AnalysisError(f'only {n} indexed name comprehensions found '
                             'in the cache readers')
